@@ -47,6 +47,7 @@ type qres struct {
 	Via   string   `json:"via"` // route / method name
 	F     filter   `json:"f"`
 	Ps    int      `json:"ps"` // page size; 0 = no pagination requested
+	Pm    string   `json:"pm"` // paging style: key (follow next_key) | total (same, count_total set) | offset
 	OK    bool     `json:"ok"`
 	Err   string   `json:"err"`
 	Pages [][]item `json:"pages"`
@@ -156,10 +157,12 @@ func (u *universe) filterReq(f filter) ctypes.CertificateFilter {
 
 const maxPages = 64
 
-// list runs the real gRPC Query/Certificates handler registered in the app's gRPC query router, following
-// next_key until it is empty. Any error or panic on any page makes the listing "failed".
-func (c *chain) list(ctx sdk.Context, u *universe, f filter, ps int) (res qres) {
-	res = qres{K: "list", Via: "grpc", F: f, Ps: ps, Pages: [][]item{}}
+// list runs the real gRPC Query/Certificates handler registered in the app's gRPC query router, page after
+// page until a response carries no next_key: pm "key" passes next_key back, "total" does the same and asks for
+// count_total, "offset" advances the offset by the page size. Any error or panic on any page makes the
+// listing "failed".
+func (c *chain) list(ctx sdk.Context, u *universe, f filter, ps int, pm string) (res qres) {
+	res = qres{K: "list", Via: "grpc", F: f, Ps: ps, Pm: pm, Pages: [][]item{}}
 	defer func() {
 		if r := recover(); r != nil {
 			res.OK, res.Err = false, fmt.Sprintf("panic: %v", r)
@@ -177,7 +180,14 @@ func (c *chain) list(ctx sdk.Context, u *universe, f filter, ps int) (res qres) 
 		}
 		req := ctypes.QueryCertificatesRequest{Filter: u.filterReq(f)}
 		if ps > 0 {
-			req.Pagination = &sdkquery.PageRequest{Key: key, Limit: uint64(ps)}
+			switch pm {
+			case "offset":
+				req.Pagination = &sdkquery.PageRequest{Offset: uint64(n * ps), Limit: uint64(ps)}
+			case "total":
+				req.Pagination = &sdkquery.PageRequest{Key: key, Limit: uint64(ps), CountTotal: true}
+			default:
+				req.Pagination = &sdkquery.PageRequest{Key: key, Limit: uint64(ps)}
+			}
 		}
 		bz, err := req.Marshal()
 		if err != nil {
@@ -209,7 +219,7 @@ func (c *chain) list(ctx sdk.Context, u *universe, f filter, ps int) (res qres) 
 
 // iter runs one of the keeper's With* iterators to the end.
 func (c *chain) iter(ctx sdk.Context, u *universe, f filter) (res qres) {
-	res = qres{K: "iter", F: f, Pages: [][]item{}}
+	res = qres{K: "iter", F: f, Pm: "key", Pages: [][]item{}}
 	defer func() {
 		if r := recover(); r != nil {
 			res.OK, res.Err = false, fmt.Sprintf("panic: %v", r)
@@ -242,7 +252,7 @@ func (c *chain) iter(ctx sdk.Context, u *universe, f filter) (res qres) {
 
 // get runs the keeper's GetCertificateByID.
 func (c *chain) get(ctx sdk.Context, u *universe, o, s string) (res qres) {
-	res = qres{K: "get", Via: "GetCertificateByID", F: filter{O: o, S: s}, Pages: [][]item{}}
+	res = qres{K: "get", Via: "GetCertificateByID", F: filter{O: o, S: s}, Pm: "key", Pages: [][]item{}}
 	defer func() {
 		if r := recover(); r != nil {
 			res.OK, res.Err = false, fmt.Sprintf("panic: %v", r)
@@ -270,7 +280,10 @@ func (c *chain) queries(ctx sdk.Context, u *universe, pageSizes []int) []qres {
 			for _, st := range states {
 				f := filter{O: o, S: s, St: st}
 				for _, ps := range pageSizes {
-					out = append(out, c.list(ctx, u, f, ps))
+					out = append(out, c.list(ctx, u, f, ps, "key"))
+					if ps > 0 && s == "" {
+						out = append(out, c.list(ctx, u, f, ps, "total"), c.list(ctx, u, f, ps, "offset"))
+					}
 				}
 			}
 		}
